@@ -93,6 +93,11 @@ class FaultInjector(Monitor):
         )
         # never vandalise scripts: a changed program text is not an "input change" fault
         inputs = [p for p in inputs if not p.endswith(".py")]
+        # A file whose content StepUp has not recorded yet (UNCONFIRMED: the confirming hash
+        # job is still to run) has no reference to compare with: a modification between a
+        # step's late read and that first hash is undetectable for any hash-based tool.
+        state_by_label = {snap.nodes[i][1]: st for i, (st, hj) in snap.files.items() if i in snap.nodes}
+        inputs = [p for p in inputs if state_by_label.get(p) != 12]
         masks = f.get("masks", ())
         if "edit_built_input" in masks:
             static_states = (12, 13, 14)
